@@ -837,3 +837,20 @@ def plc_rw(ctx):
     obs.append(Ob(r, "cases", {"corner1", "corner2", "corner3", "corner4", "fixed-corner", "row-wrap"} <= cases,
                   "the folded sizes (%d) exercise all four corner cases, the fixed corner pattern and the DMRE row wrap: %s" % (len(vs), sorted(cases))))
     return obs
+
+
+def plc_index(ctx):
+    """PLC-INDEX: the index arithmetic of the placement (the ledger's former `placement-index` class) cannot fail for any map the
+    crate constructs: IndexTraversal::run / idx / utah / corner1-4 folded for the mapping matrix of all 48 sizes evaluate every
+    `visited[..]` index and every debug assertion of idx() without a trap, and hand out exactly Annex F's module indices
+    (all < h*w) and the codeword numbers 0 .. h*w/8 - 1; the maps these run on have entries.len() = h*w with (h, w) a catalogue
+    size (MatrixMap::new folded for every size; try_from_bits by PARSE-INV), so `entries[indices[k]]` and `data[idx]` in
+    traverse / traverse_mut / codewords are in range."""
+    r = "PLC-INDEX"
+    from . import p_bitmap
+    ok_t, det_t = placement_exec(ctx)
+    ok_p, det_p = p_bitmap.parse_exec(ctx)
+    ok_n, det_n = ctx.memo("map_new_exec", lambda: list(p_bitmap._map_new_exec(ctx)))
+    obs = [Ob(r, "traversal", bool(ok_t), ("cannot decide: " if ok_t is None else "") + "no index or assertion of the traversal can fail, for every size: " + str(det_t)),
+           Ob(r, "maps", bool(ok_p) and bool(ok_n), "every map the crate builds has entries.len() = height * width of a catalogue size: new(): %s; try_from_bits: %s" % (det_n, det_p))]
+    return obs
